@@ -425,6 +425,27 @@ class ConsensusRun(object):
                 sim.probe('w-line-absent')
             if e.policy:
                 sim.probe('p-line')
+        if getattr(self, 'churn', False):
+            for j in range(self.churn_n):
+                idx = 1000 + k * 200 + j
+                r = PoolRelay(idx, hashlib.sha1(b'txsim passing relay %d' % idx).digest())
+                r.nick = 'p%dx%d' % (k, j)
+                e = Entry()
+                e.relay = r
+                e.nick = r.nick
+                e.ip = '172.%d.%d.%d' % (16 + k % 16, j, 1 + k)
+                e.or_port = 9001
+                e.dir_port = 0
+                e.alines = []
+                e.flags = set(['Running', 'Valid', 'Fast'])
+                e.bw = 100 + j
+                e.unmeasured = False
+                e.policy = None
+                e.digest = b64_nopad(hashlib.sha1(b'%s desc' % r.hex.encode()).digest())
+                e.published = '2038-01-01 00:00:00' if getattr(self, 'const_published', True) else \
+                    '2026-09-%02d %02d:%02d:%02d' % (1 + k % 28, j % 24, k % 60, j % 60)
+                doc.add(e)
+            changed = True
         doc.finish()
         if prev is not None:
             for hx, pe in sorted(prev.by_hex.items()):
@@ -464,6 +485,13 @@ class ConsensusRun(object):
             self.n_repl = min(self.n_repl, 2)
         if self.n_repl >= 3:
             sim.probe('docs>=4')
+        self.churn = self.seg_mode != 'bytewise' and ch.chance(1, P.get('churn_every', 120), 'churn')
+        if self.churn:
+            # a long-lived controller on a network with churn: a dozen or more documents, each listing some eighty to a
+            # hundred and twenty relays that are gone again in the next (over a thousand relays have come and gone)
+            self.n_repl = 12 + ch.draw(6, 'nchurndocs')
+            self.churn_n = 80 + ch.draw(41, 'nchurn')
+            sim.probe('more-than-1000-relays-departed' if self.n_repl * self.churn_n > 1000 else 'relays-churning')
         self.p_dup = ch.pick([2, 0, 4], 'pdup')
         self.early = ch.chance(1, 3, 'early')
         self.n_cmds = ch.draw(P.get('max_cmds', 8) + 1, 'ncmds')
